@@ -284,6 +284,15 @@ NAME: /[a-z]+/
 NUM: /[0-9]+/
 %ignore /[ \n]+/
 "##),
+    g!("bytes_mode_str", Lark, "bytesmode str", r##"%llguidance { "allow_invalid_utf8": true }
+start: /"[^"\\\x00-\x1F\x7F\xFF]{0,12}"/
+"##),
+    g!("bytes_mode_obj", Lark, "bytesmode str", r##"%llguidance { "allow_invalid_utf8": true }
+start: "{" pair ("," pair)* "}"
+pair: KEY ":" VAL
+KEY: /"[a-z]{1,6}"/
+VAL: /"[^"\\\x00-\x1F\x7F\xFF]{0,9}"/ | /"[^"\\\x00-\x1F\x7F\xFF]{11,31}"/ | /[0-9]{1,4}/
+"##),
     g!("string_escapes", Lark, "prod str", r##"start: STR ("+" STR)*
 STR: /"([^"\\\x00-\x1F]|\\(["\\nrt]|u[0-9a-f]{4}))*"/
 "##),
